@@ -86,21 +86,32 @@ Proof.
     destruct (n <=? x)%N; reflexivity.
 Qed.
 
+Lemma signer_step_none n prev x : signer_step n prev x = None -> (x < n)%N.
+Proof.
+  unfold signer_step. destruct prev as [p|];
+    [destruct (x =? p)%N; [discriminate|]; destruct (x <? p)%N; [discriminate|]|];
+    destruct (n <=? x)%N eqn:E; try discriminate; intros _; apply N.leb_gt in E; exact E.
+Qed.
+
+(* the loop invariant: the previous index (if any) passed the range test *)
+Definition prev_in_range (n : N) (pre : list N) : Prop := forall p, last_opt pre = Some p -> (p < n)%N.
+
 Lemma range_until_signer_loop (body : Z -> Z -> option verdict) (full : list N) (n : N) :
-  (forall pre x suf, full = pre ++ x :: suf ->
+  (forall pre x suf, full = pre ++ x :: suf -> prev_in_range n pre ->
                      body (Z.of_nat (length pre)) (Z.of_N x) = signer_step n (last_opt pre) x) ->
-  forall suf pre, full = pre ++ suf ->
+  forall suf pre, full = pre ++ suf -> prev_in_range n pre ->
     match gen_range_until body (map Z.of_N suf) (Z.of_nat (length pre)) with
     | Some v => v | None => Accept end
     = signer_loop (last_opt pre) suf n.
 Proof.
-  intros Hb suf. induction suf as [|x r IH]; intros pre Hf.
+  intros Hb suf. induction suf as [|x r IH]; intros pre Hf Hinv.
   - reflexivity.
-  - cbn [map gen_range_until]. rewrite (Hb pre x r Hf), signer_loop_step.
-    destruct (signer_step n (last_opt pre) x) as [v|]; [reflexivity|].
+  - cbn [map gen_range_until]. rewrite (Hb pre x r Hf Hinv), signer_loop_step.
+    destruct (signer_step n (last_opt pre) x) as [v|] eqn:Es; [reflexivity|].
     specialize (IH (pre ++ [x])). rewrite app_length in IH. cbn [length] in IH.
     replace (Z.of_nat (length pre + 1)) with (Z.of_nat (length pre) + 1) in IH by lia.
-    rewrite last_opt_snoc in IH. apply IH. rewrite <- app_assoc. exact Hf.
+    rewrite last_opt_snoc in IH. apply IH; [rewrite <- app_assoc; exact Hf|].
+    intros p Hp. rewrite last_opt_snoc in Hp. injection Hp as <-. exact (signer_step_none _ _ _ Es).
 Qed.
 
 (* the body the translator produced satisfies the step specification; the comparisons are
@@ -126,10 +137,10 @@ Lemma signer_indices_body_spec (flav_body : Z -> Z -> option verdict) (signers :
            else if (Z.of_nat n mod 18446744073709551616 <=? x) then Some (Reject ROutOfRange) else None
        end
      else if (Z.of_nat n mod 18446744073709551616 <=? x) then Some (Reject ROutOfRange) else None) ->
-  forall pre x suf, signers = pre ++ x :: suf ->
+  forall pre x suf, signers = pre ++ x :: suf -> prev_in_range (N.of_nat n) pre ->
     flav_body (Z.of_nat (length pre)) (Z.of_N x) = signer_step (N.of_nat n) (last_opt pre) x.
 Proof.
-  intros Hn Hb pre x suf Hs. rewrite Hb, (len_u64 n Hn). unfold signer_step.
+  intros Hn Hb pre x suf Hs _. rewrite Hb, (len_u64 n Hn). unfold signer_step.
   rewrite N_leb_Z.
   induction pre as [|p0 pre0 _] using rev_ind.
   - reflexivity.
@@ -141,16 +152,53 @@ Proof.
     rewrite nth_error_split, N_eqb_Z, N_ltb_Z. reflexivity.
 Qed.
 
+(* the other spelling of the same loop body: range test first, `continue` for the first element,
+   then the duplicate / order tests. It decides the same because the previous index passed the
+   range test (the loop invariant): an index that is out of range is greater than it. *)
+Lemma signer_indices_body_spec_range_first (flav_body : Z -> Z -> option verdict) (signers : list N) (n : nat) :
+  Z.of_nat n < 2 ^ 63 ->
+  (forall i x, flav_body i x =
+     if (Z.of_nat n mod 18446744073709551616 <=? x) then Some (Reject ROutOfRange)
+     else if (i =? 0) then None
+     else match gen_index (map Z.of_N signers) (i - 1) with
+          | None => Some Panic
+          | Some p =>
+              if (x =? p) then Some (Reject RDuplicate)
+              else if (x <? p) then Some (Reject RUnordered) else None
+          end) ->
+  forall pre x suf, signers = pre ++ x :: suf -> prev_in_range (N.of_nat n) pre ->
+    flav_body (Z.of_nat (length pre)) (Z.of_N x) = signer_step (N.of_nat n) (last_opt pre) x.
+Proof.
+  intros Hn Hb pre x suf Hs Hinv. rewrite Hb, (len_u64 n Hn). unfold signer_step.
+  rewrite N_leb_Z.
+  induction pre as [|p0 pre0 _] using rev_ind.
+  - reflexivity.
+  - pose proof (Hinv p0 (last_opt_snoc _ _)) as Hp.
+    rewrite last_opt_snoc, app_length. cbn [length].
+    replace (Z.of_nat (length pre0 + 1) =? 0) with false by (symmetry; apply Z.eqb_neq; lia).
+    replace (Z.of_nat (length pre0 + 1) - 1) with (Z.of_nat (length pre0)) by lia.
+    rewrite gen_index_nat, Hs, <- app_assoc, map_app. cbn [app map].
+    replace (length pre0) with (length (map Z.of_N pre0)) by apply map_length.
+    rewrite nth_error_split, N_eqb_Z, N_ltb_Z.
+    destruct (Z.leb_spec (Z.of_N (N.of_nat n)) (Z.of_N x)), (Z.eqb_spec (Z.of_N x) (Z.of_N p0)),
+      (Z.ltb_spec (Z.of_N x) (Z.of_N p0)); try reflexivity; lia.
+Qed.
+
 Lemma gnosis_signer_indices_agree signers n :
   Z.of_nat n < 2 ^ 63 ->
   gen_gnosis_validate_signer_indices (map Z.of_N signers) (Z.of_nat n) = validate_signer_indices signers n.
 Proof.
   intros Hn. unfold gen_gnosis_validate_signer_indices, validate_signer_indices.
   match goal with |- match gen_range_until ?b _ _ with _ => _ end = _ => set (body := b) end.
-  apply (range_until_signer_loop body signers (N.of_nat n)) with (pre := []); [|reflexivity].
-  apply (signer_indices_body_spec body signers n Hn).
-  intros i x. unfold body. split_atoms; try reflexivity;
-    destruct (gen_index (map Z.of_N signers) (i - 1)); try reflexivity; split_atoms; try reflexivity; congruence.
+  apply (range_until_signer_loop body signers (N.of_nat n)) with (pre := []);
+    [|reflexivity|intros p Hp; discriminate Hp].
+  first
+    [ apply (signer_indices_body_spec body signers n Hn);
+      intros i x; unfold body; split_atoms; try reflexivity;
+      destruct (gen_index (map Z.of_N signers) (i - 1)); try reflexivity; split_atoms; try reflexivity; congruence
+    | apply (signer_indices_body_spec_range_first body signers n Hn);
+      intros i x; unfold body; split_atoms; try reflexivity;
+      destruct (gen_index (map Z.of_N signers) (i - 1)); try reflexivity; split_atoms; try reflexivity; congruence ].
 Qed.
 
 Lemma service_signer_indices_agree signers n :
@@ -159,10 +207,15 @@ Lemma service_signer_indices_agree signers n :
 Proof.
   intros Hn. unfold gen_service_validate_signer_indices, validate_signer_indices.
   match goal with |- match gen_range_until ?b _ _ with _ => _ end = _ => set (body := b) end.
-  apply (range_until_signer_loop body signers (N.of_nat n)) with (pre := []); [|reflexivity].
-  apply (signer_indices_body_spec body signers n Hn).
-  intros i x. unfold body. split_atoms; try reflexivity;
-    destruct (gen_index (map Z.of_N signers) (i - 1)); try reflexivity; split_atoms; try reflexivity; congruence.
+  apply (range_until_signer_loop body signers (N.of_nat n)) with (pre := []);
+    [|reflexivity|intros p Hp; discriminate Hp].
+  first
+    [ apply (signer_indices_body_spec body signers n Hn);
+      intros i x; unfold body; split_atoms; try reflexivity;
+      destruct (gen_index (map Z.of_N signers) (i - 1)); try reflexivity; split_atoms; try reflexivity; congruence
+    | apply (signer_indices_body_spec_range_first body signers n Hn);
+      intros i x; unfold body; split_atoms; try reflexivity;
+      destruct (gen_index (map Z.of_N signers) (i - 1)); try reflexivity; split_atoms; try reflexivity; congruence ].
 Qed.
 
 (* ---- KeyperSet.GetSubset ------------------------------------------------------------------ *)
